@@ -29,7 +29,7 @@ type PipeCell struct {
 	Size   int        `json:"size"`
 	Dist   string     `json:"dist"`
 	Seed   int64      `json:"seed"`
-	Name   string     `json:"name"`  // file name component (may look like a pipeline suffix)
+	Name   string     `json:"name"`   // file name component (may look like a pipeline suffix)
 	NonReg bool       `json:"nonreg"` // also exercise the non-regular codec parameters
 }
 
